@@ -147,6 +147,14 @@ def check_walk(case):
                 rp = cs.sub_return_point
                 if rp is not bq:
                     raise Violation("walk-retsub", f"retsub at line {lp} returns to line {lq}; graph has {rp.entry_instr.line if rp else None} after the callsub at line {cs.instructions[-1].line}")
+                # the return step is an edge of the global graph: the tables that span it (and that the cfg
+                # export draws: retsub blocks x return points of the called subroutine) must hold both ends,
+                # also when the retsub block is shared by several subroutines (one falls through into another)
+                sub = cs.called_subroutine
+                if not any(x is bp for x in sub.retsub_blocks):
+                    raise Violation("walk-retsub-not-a-retsub-block-of-callee", f"retsub at line {lp} ends the activation of {sub.name!r} (called at line {cs.instructions[-1].line}) but is not among its retsub blocks {[x.entry_instr.line for x in sub.retsub_blocks]} ({env.describe()})")
+                if not any(x is bq for x in sub.return_point_blocks):
+                    raise Violation("walk-return-point-not-listed", f"execution returns from {sub.name!r} to line {lq}, which is not among its return points {[x.entry_instr.line for x in sub.return_point_blocks]}")
             else:
                 if bq not in bp.next:
                     raise Violation("walk-edge-missing", f"execution goes from line {lp} ({g.seq[p].text}) to line {lq} but the graph has no such edge ({env.describe()})")
